@@ -22,6 +22,12 @@ FAMILIES = [
 
 
 def generate(rng, tier, shard, nshards):
+    # (C) the exhaustive family enumerated by TLC (every grammar with <= 2 rules over {S,A}/{a}), all strings
+    for G in fam.tlc_family(shard, nshards):
+        for s in fam.strings(G["V"], 3):
+            for p in ("direct", "earley", "cky"):
+                yield gops.event("parse", {"sr": "Sat3", "G": G, "s": list(s), "parser": p, "names": "str"},
+                                 site=f"parse/{p}", feat="tlc-family")
     n_grammars = 14 if tier == "quick" else 120
     L = 3 if tier == "quick" else 4
     for gi in range(n_grammars):
@@ -34,10 +40,18 @@ def generate(rng, tier, shard, nshards):
         feat = fam.feature_key(g)
         for names, gv in variants:
             G, _ = cfg_proj(gv)
-            for s in fam.strings(gv.V, L if len(G["rules"]) <= 5 else 3):
+            allstr = [[str(x) for x in s] for s in fam.strings(gv.V, L if len(G["rules"]) <= 5 else 3)]
+            for s in allstr:
                 for p in parsers:
-                    yield gops.event("parse", {"sr": srn, "G": G, "s": [str(x) for x in s], "parser": p, "names": names},
-                                     site=f"parse/{p}", feat=feat)
+                    args = {"sr": srn, "G": G, "s": s, "parser": p, "names": names}
+                    f2 = feat
+                    if rng.random() < 0.25:
+                        if p in ("earley", "rescaled", "cky"):     # history on the parser object
+                            args["warm"] = [rng.choice(allstr) for _ in range(rng.randint(1, 3))]
+                        else:                                       # history on the grammar object
+                            args["pre"] = [rng.choice(gops.safe_pre(srn, shape)) for _ in range(rng.randint(1, 2))]
+                        f2 = feat + "+history"
+                    yield gops.event("parse", args, site=f"parse/{p}", feat=f2)
             if gi % 2 == 0:
                 yield gops.event("lang", {"sr": srn, "G": G, "L": rng.choice([1, 2, 2, 3]), "names": names},
                                  site="materialize", feat=feat)
@@ -215,9 +229,11 @@ def run(report, tier, seed):
     import random
     from check import standard_run
     model_check(report, tier)
+    from common import semantic_core
+    famfile = semantic_core(report, ["InsideIsTreeSum"], maxrules=2 if tier == "quick" else 3)
     rng0 = random.Random(seed + 17)
     extra = schedule_events(rng0, tier) + tlc_schedules(report, rng0, tier)
-    standard_run(report, "C02", MODULE, tier, seed, selftests, extra_events=extra,
+    standard_run(report, "C02", MODULE, tier, seed, selftests, extra_events=extra, extra_env={"VERIF_FAMILY": famfile},
                  trivial=("plain", "default-schedule"),
                  rule=("random grammars per semiring/shape (Sat3/Sat2/Bool: any symbol anywhere incl. nullary rules, unary "
                        "cycles, duplicates; Rat/MaxTimes: same-span-acyclic), all strings up to L over V, every parser; "
